@@ -25,6 +25,9 @@ from fv import replay as rp  # noqa: E402
 import spec  # noqa: E402
 
 EVID = os.path.join(VERIF, "evidence")
+if os.environ.get("FSL_REPO", "/repo") != "/repo":
+    # development runs against a scratch copy (mutants, seeded patches) never touch the committed evidence
+    EVID = os.path.join(VERIF, "out", "evidence_scratch")
 KNOWN = os.path.join(VERIF, "known_findings.json")
 
 
@@ -159,7 +162,10 @@ def main():
             checker_cmd="python3 run/check.py %s --tier %s  (per group: goto-cc -> goto-instrument --dfcc --enforce-contract f "
                         "[--replace-call-with-contract g] [--apply-loop-contracts] -> cbmc <checks> [backend])" % (prop, args.tier),
             trusted_base=meta.get("trusted_base", []) + spec.COMMON_TRUSTED,
-            explanation=meta.get("explanation", ""),
+            explanation=(meta.get("explanation", "") or
+                         "Contract-based deductive verification with CBMC on a mechanical C extraction of the functions this property depends on; "
+                         "see `groups` for the clause each obligation group decides, `undecided_clauses` and `unmechanised_lemmas` for what is not "
+                         "decided, and `assumptions`/`trusted_base` for what is trusted."),
             functions_under_contract=sorted(functions.values(), key=lambda u: u["name"]),
             groups=glist,
             samples=samples[:12] or ["(no obligation discharged)"],
